@@ -109,7 +109,15 @@ def drive(sc):
         code, outcome = outcome_of(lambda: plan.run_step(step, config=config, transforms=transforms))
     else:
         step = plan.add_step("optimizer")
-        code, outcome = outcome_of(lambda: plan.run_step(step, config=config, transforms=transforms))
+        import tempfile
+        import zlib
+        # output redirection is an orthogonal switch: on for every second scenario, the exit codes must not depend on it
+        if zlib.crc32(str(cfg).encode()) % 2:
+            with tempfile.TemporaryDirectory(prefix="rvc14") as outdir:
+                config["optimizer"] = {**config["optimizer"], "output_dir": outdir, "stdout": "optimizer.out"}
+                code, outcome = outcome_of(lambda: plan.run_step(step, config=config, transforms=transforms))
+        else:
+            code, outcome = outcome_of(lambda: plan.run_step(step, config=config, transforms=transforms))
     if state["pending"] is not None:
         events.append({"ev": "Eval", "idx": state["pending"], "delivered": False, "failed": False, "code": "", "nfun": 0})
     events.append({"ev": "Exit", "idx": 0, "delivered": False, "failed": False,
